@@ -16,6 +16,7 @@ FixedOnly == {"fixed"}
 VarOnly == {"max", "min"}
 AddOffsKeys1 == {<<1, 0>>}
 VarDflt == {"max", "min", "dflt"}
+MaxFixedDflt == {"max", "fixed", "dflt"}
 FixedMin == {"fixed", "min"}
 MaxOnly == {"max"}
 MinOnly == {"min"}
@@ -38,6 +39,9 @@ RunOffsMinUpd == {<<50, 0>>, <<3, 0>>}
 \* fixed timers given the identical instant (well inside the 32767 s range) after earlier ones have fired
 AddOffsSame == {<<3000, 0>>}
 RunOffsSame == {<<3001, 0>>}
+\* a variable timer queued at wrap-time 0 (65536 s = 2^16 s) in slot 0: where a Default key points
+AddOffsWrap0 == {<<25536, 0>>, <<65536, 0>>}
+RunOffsWrap0 == {<<40000, 0>>}
 AddOffsNear == {<<32766, 200000000>>, <<32766, 500000000>>, <<32766, 900000000>>, <<32767, 100000000>>}
 RunOffsNear == {<<0, 900000000>>, <<40000, 0>>}
 =============================================================================
